@@ -224,6 +224,7 @@ pub mod rt {
     now: AtomicU64,
   }
 
+  static TRY_SEEN: ::std::sync::atomic::AtomicBool = ::std::sync::atomic::AtomicBool::new(false);
   static RUN_IDS: AtomicU64 = AtomicU64::new(0);
   static PASSIVE_IDS: AtomicU64 = AtomicU64::new(0);
   static WRITER_PREF: AtomicBool = AtomicBool::new(false);
@@ -361,6 +362,24 @@ pub mod rt {
         Release { id, mode, ctl: None }
       }
     }
+  }
+
+  /// Some(release) iff the logical lock was granted (controlled) / None in passive mode: the caller uses the real try_*.
+  pub(super) fn try_acquire(id: u64, created: Site, mode: Mode, site: Site) -> Option<Option<Release>> {
+    match ctx() {
+      Some((rt, tid)) => {
+        if rt.ctl_try_acquire(tid, id, created, mode, site) {
+          Some(Some(Release { id, mode, ctl: Some((rt, tid)) }))
+        } else {
+          Some(None)
+        }
+      }
+      None => None,
+    }
+  }
+  pub(super) fn passive_release(id: u64, mode: Mode, site: Site) -> Release {
+    let _ = TLS.try_with(|t| t.held.borrow_mut().push(Held { id, mode, site }));
+    Release { id, mode, ctl: None }
   }
 
   /// The real lock was not free although the logical state said so: it is held by a thread outside
@@ -683,6 +702,12 @@ pub mod rt {
         }
       }
       self.tr(&mut st, me, "release", Some(id), None);
+      // A release is invisible to blocking acquisitions (switching threads only before acquisitions loses no behaviour),
+      // but try_read / try_write / try_lock OBSERVE whether a lock is held: once the program under test has used one of
+      // them, every release becomes a scheduling point as well.
+      if TRY_SEEN.load(SeqCst) && !::std::thread::panicking() && !matches!(st.threads[me as usize].state, TState::Finished) && st.done.is_none() {
+        self.schedule(st, me);
+      }
     }
 
     /// Condvar::wait: atomically release `mutex` and wait; returns with `mutex` granted again.
@@ -742,6 +767,32 @@ pub mod rt {
         }
       }
       self.schedule(st, me); // `me` stays Runnable
+    }
+
+    /// try_read / try_write / try_lock: a scheduling point, then the attempt; never blocks.
+    pub(super) fn ctl_try_acquire(&self, me: u32, id: u64, created: Site, mode: Mode, site: Site) -> bool {
+      TRY_SEEN.store(true, SeqCst);
+      {
+        let mut st = self.lock();
+        self.tr(&mut st, me, "try-acquire", Some(id), Some(site));
+        st.locks.entry(id).or_insert_with(|| LockSt { created, writer: None, readers: Vec::new() });
+        self.schedule(st, me);
+      }
+      let mut st = self.lock();
+      let mine = st.locks.get(&id).map_or(false, |l| {
+        matches!(l.writer, Some((w, _)) if w == me) || (mode != Mode::Read && l.readers.iter().any(|r| r.0 == me))
+      });
+      let ok = !mine && self.can_acquire(&st, id, mode);
+      if ok {
+        if let Some(l) = st.locks.get_mut(&id) {
+          match mode {
+            Mode::Read => l.readers.push((me, site)),
+            _ => l.writer = Some((me, site)),
+          }
+        }
+      }
+      self.tr(&mut st, me, if ok { "try-ok" } else { "try-would-block" }, Some(id), Some(site));
+      ok
     }
 
     pub(super) fn yield_now(&self, me: u32, label: &str) {
@@ -1089,6 +1140,32 @@ pub mod sync {
         wrap_try(self.inner.try_write(), rel, site, |inner, rel| RwLockWriteGuard { inner, rel })
       }
     }
+    #[track_caller]
+    pub fn try_read(&self) -> ss::TryLockResult<RwLockReadGuard<'_, T>> {
+      let site = Location::caller();
+      match rt::try_acquire(self.id, self.site, Mode::Read, site) {
+        Some(Some(rel)) => wrap_try(self.inner.try_read(), rel, site, |inner, rel| RwLockReadGuard { inner, rel }).map_err(ss::TryLockError::Poisoned),
+        Some(None) => Err(ss::TryLockError::WouldBlock),
+        None => match self.inner.try_read() {
+          Ok(inner) => Ok(RwLockReadGuard { inner, rel: rt::passive_release(self.id, Mode::Read, site) }),
+          Err(ss::TryLockError::Poisoned(p)) => Err(ss::TryLockError::Poisoned(ss::PoisonError::new(RwLockReadGuard { inner: p.into_inner(), rel: rt::passive_release(self.id, Mode::Read, site) }))),
+          Err(ss::TryLockError::WouldBlock) => Err(ss::TryLockError::WouldBlock),
+        },
+      }
+    }
+    #[track_caller]
+    pub fn try_write(&self) -> ss::TryLockResult<RwLockWriteGuard<'_, T>> {
+      let site = Location::caller();
+      match rt::try_acquire(self.id, self.site, Mode::Write, site) {
+        Some(Some(rel)) => wrap_try(self.inner.try_write(), rel, site, |inner, rel| RwLockWriteGuard { inner, rel }).map_err(ss::TryLockError::Poisoned),
+        Some(None) => Err(ss::TryLockError::WouldBlock),
+        None => match self.inner.try_write() {
+          Ok(inner) => Ok(RwLockWriteGuard { inner, rel: rt::passive_release(self.id, Mode::Write, site) }),
+          Err(ss::TryLockError::Poisoned(p)) => Err(ss::TryLockError::Poisoned(ss::PoisonError::new(RwLockWriteGuard { inner: p.into_inner(), rel: rt::passive_release(self.id, Mode::Write, site) }))),
+          Err(ss::TryLockError::WouldBlock) => Err(ss::TryLockError::WouldBlock),
+        },
+      }
+    }
     pub fn get_mut(&mut self) -> ss::LockResult<&mut T> { self.inner.get_mut() }
     pub fn is_poisoned(&self) -> bool { self.inner.is_poisoned() }
     pub fn clear_poison(&self) { self.inner.clear_poison() }
@@ -1154,6 +1231,19 @@ pub mod sync {
         wrap(self.inner.lock(), |inner| MutexGuard { inner, rel, lock: self })
       } else {
         wrap_try(self.inner.try_lock(), rel, site, |inner, rel| MutexGuard { inner, rel, lock: self })
+      }
+    }
+    #[track_caller]
+    pub fn try_lock(&self) -> ss::TryLockResult<MutexGuard<'_, T>> {
+      let site = Location::caller();
+      match rt::try_acquire(self.id, self.site, Mode::Mutex, site) {
+        Some(Some(rel)) => wrap_try(self.inner.try_lock(), rel, site, |inner, rel| MutexGuard { inner, rel, lock: self }).map_err(ss::TryLockError::Poisoned),
+        Some(None) => Err(ss::TryLockError::WouldBlock),
+        None => match self.inner.try_lock() {
+          Ok(inner) => Ok(MutexGuard { inner, rel: rt::passive_release(self.id, Mode::Mutex, site), lock: self }),
+          Err(ss::TryLockError::Poisoned(p)) => Err(ss::TryLockError::Poisoned(ss::PoisonError::new(MutexGuard { inner: p.into_inner(), rel: rt::passive_release(self.id, Mode::Mutex, site), lock: self }))),
+          Err(ss::TryLockError::WouldBlock) => Err(ss::TryLockError::WouldBlock),
+        },
       }
     }
     pub fn get_mut(&mut self) -> ss::LockResult<&mut T> { self.inner.get_mut() }
